@@ -37,7 +37,12 @@ fn set_res(pie: &mut Pie<Trk>, scn: &Scenario, r: i64, v: i64) {
     let map = pie.resource_state_mut::<Res<K>>().get_or_set_default_mut::<ResMap>();
     if v == ABSENT { map.remove(&num); } else { map.insert(num, v); }
   }
-  match ty { 0 => go::<0>(pie, num, v), 1 => go::<1>(pie, num, v), _ => panic!("harness: unknown resource type") }
+  match ty {
+    0 => go::<0>(pie, num, v),
+    1 => go::<1>(pie, num, v),
+    2 => { use pie::resource::map::GetGlobalMap; let m = pie.resource_state_mut::<MK>().get_global_map_mut(); if v == ABSENT { m.remove(&MK(num)); } else { m.insert(MK(num), v); } }
+    _ => panic!("harness: unknown resource type"),
+  }
 }
 
 fn get_res(pie: &mut Pie<Trk>, scn: &Scenario, r: i64) -> i64 {
@@ -45,7 +50,12 @@ fn get_res(pie: &mut Pie<Trk>, scn: &Scenario, r: i64) -> i64 {
   fn go<const K: u8>(pie: &mut Pie<Trk>, num: u32) -> i64 {
     pie.resource_state_mut::<Res<K>>().get_or_set_default::<ResMap>().get(&num).copied().unwrap_or(ABSENT)
   }
-  match ty { 0 => go::<0>(pie, num), 1 => go::<1>(pie, num), _ => panic!("harness: unknown resource type") }
+  match ty {
+    0 => go::<0>(pie, num),
+    1 => go::<1>(pie, num),
+    2 => { use pie::resource::map::GetGlobalMap; pie.resource_state_mut::<MK>().get_global_map().get(&MK(num)).copied().unwrap_or(ABSENT) }
+    _ => panic!("harness: unknown resource type"),
+  }
 }
 
 fn schedule(bu: &mut pie::BottomUpBuild, scn: &Scenario, r: i64) {
@@ -53,6 +63,7 @@ fn schedule(bu: &mut pie::BottomUpBuild, scn: &Scenario, r: i64) {
   match ty {
     0 => bu.schedule_tasks_affected_by(&Res::<0>(num) as &dyn KeyObj),
     1 => bu.schedule_tasks_affected_by(&Res::<1>(num) as &dyn KeyObj),
+    2 => bu.schedule_tasks_affected_by(&MK(num) as &dyn KeyObj),
     _ => panic!("harness: unknown resource type"),
   }
 }
@@ -106,7 +117,7 @@ fn with_task_key<R>(scn: &Scenario, t: i64, f: impl FnOnce(&dyn KeyObj) -> R) ->
 }
 fn with_res_key<R>(scn: &Scenario, r: i64, f: impl FnOnce(&dyn KeyObj) -> R) -> R {
   let (ty, num) = (scn.rtype[(r - 1) as usize], scn.rnum[(r - 1) as usize]);
-  match ty { 0 => f(&Res::<0>(num)), _ => f(&Res::<1>(num)) }
+  match ty { 0 => f(&Res::<0>(num)), 1 => f(&Res::<1>(num)), _ => f(&MK(num)) }
 }
 
 fn key_id(k: &dyn KeyObj, task: bool) -> i64 {
